@@ -87,14 +87,15 @@ class Model:
             parts.append(c if pol else mk_not(c))
         return mk_and(parts)
 
-    def field_defs(self, ci: ClassInfo, method: str = "__init__") -> Dict[str, List[Tuple[Term, Term, ast.AST]]]:
+    def field_defs(self, ci: ClassInfo, method: str = "__init__", early_exits: bool = False) -> Dict[str, List[Tuple[Term, Term, ast.AST]]]:
         """field -> [(guard, value, stmt)] for every ``self.<field> = value`` in the constructor."""
         fi = ci.methods.get(method)
         if fi is None:
             return {}
         ctx = self.norm.ctx_for(fi, subst_locals=False)
         out: Dict[str, List[Tuple[Term, Term, ast.AST]]] = {}
-        for node in ast.walk(fi.node):
+        nodes = sorted((n for n in ast.walk(fi.node) if isinstance(n, (ast.Assign, ast.AnnAssign))), key=lambda n: (n.lineno, n.col_offset))
+        for node in nodes:
             tgt = None
             if isinstance(node, ast.Assign) and len(node.targets) == 1:
                 tgt = node.targets[0]
@@ -102,7 +103,7 @@ class Model:
                 tgt = node.target
             if isinstance(tgt, ast.Attribute) and isinstance(tgt.value, ast.Name) and tgt.value.id == "self":
                 value = self.norm.term(node.value, ctx)
-                guard = self.guard_term(node, ctx)
+                guard = self.guard_term(node, ctx, None, early_exits)
                 out.setdefault(f"{ci.name}.{tgt.attr}", []).append((guard, value, node))
         return out
 
@@ -231,3 +232,86 @@ class Model:
 @lru_cache(maxsize=4)
 def model() -> Model:
     return Model()
+
+
+# ---------------------------------------------------------------------------
+# case analysis over "optional parameter given / not given"
+
+GIVEN = ("given",)  # abstract value: a supplied, non-None, non-zero argument
+
+
+def simplify(m: "Model", t: Term, env: Dict[str, Any]) -> Term:
+    """Partial evaluation of a term under ``env`` (symbol -> None | GIVEN | constant): resolves is-None tests and truthiness."""
+    from .norm import mk_ite, mk_or, mk_add, mk_mul, mk_neg
+
+    k = t[0]
+    if k in ("const",):
+        return t
+    if k == "sym":
+        if t[1] in env and env[t[1]] is None:
+            return ("const", None)
+        return t
+    if k == "cmp":
+        a, b = simplify(m, t[2], env), simplify(m, t[3], env)
+        if t[1] in ("is", "is not", "==", "!="):
+            for x, y in ((a, b), (b, a)):
+                if y == ("const", None) and x[0] == "sym" and x[1] in env:
+                    isnone = env[x[1]] is None
+                    return ("const", isnone if t[1] in ("is", "==") else not isnone)
+            if a == ("const", None) and b == ("const", None):
+                return ("const", t[1] in ("is", "=="))
+        return ("cmp", t[1], a, b)
+    if k == "truthy":
+        a = simplify(m, t[1], env)
+        if a == ("const", None):
+            return ("const", False)
+        if a[0] == "sym" and a[1] in env and env[a[1]] is GIVEN:
+            return ("const", True)
+        if a[0] == "const":
+            return ("const", bool(a[1]))
+        return ("truthy", a)
+    if k == "not":
+        return mk_not(simplify(m, t[1], env))
+    if k == "and":
+        return mk_and([simplify(m, x, env) for x in t[1]]) if not any(simplify(m, x, env) == ("const", False) for x in t[1]) else ("const", False)
+    if k == "or":
+        parts = [simplify(m, x, env) for x in t[1]]
+        if any(p == ("const", True) for p in parts):
+            return ("const", True)
+        return mk_or(parts)
+    if k == "ite":
+        c = simplify(m, t[1], env)
+        if c == ("const", True):
+            return simplify(m, t[2], env)
+        if c == ("const", False):
+            return simplify(m, t[3], env)
+        return mk_ite(c, simplify(m, t[2], env), simplify(m, t[3], env))
+    if k == "add":
+        return mk_add([simplify(m, x, env) for x in t[1]])
+    if k == "mul":
+        return mk_mul([simplify(m, x, env) for x in t[1]])
+    if k == "neg":
+        return mk_neg(simplify(m, t[1], env))
+    if k == "div":
+        return ("div", simplify(m, t[1], env), simplify(m, t[2], env))
+    if k == "call":
+        return ("call", t[1], tuple((p, simplify(m, v, env)) for p, v in t[2]))
+    return t
+
+
+def effective_field_value(m: "Model", defs: List[Tuple[Term, Term, ast.AST]], env: Dict[str, Any]) -> Optional[Term]:
+    """Value a field holds at the end of the constructor under ``env``: the last definition whose guard holds.
+
+    Returns None when no definition is known to apply, ('unk', ...) when a guard stays undetermined."""
+    value: Optional[Term] = None
+    for guard, val, _ in defs:  # source order == execution order for straight-line constructors
+        g = simplify(m, guard, env)
+        if g == ("const", True):
+            value = simplify(m, val, env)
+        elif g == ("const", False):
+            continue
+        else:
+            from .norm import mk_ite
+
+            value = mk_ite(g, simplify(m, val, env), value if value is not None else ("unk", "undefined"))
+    return value
